@@ -108,7 +108,145 @@ def expected(spec, begin):
     return ticks, 'done'
 
 
+def run_segments(case):
+    """one ticker iterated in pieces: by several simulations one after the other (a simulation
+    run in segments), or partly by a simulation nested in the one that began it"""
+    rng = random.Random('%s/%s/c14seg' % (case['seed'], case['index']))
+    spec = dict(case['tickers'][0])
+    period = abs(num(spec['period']))
+    if period == float('inf'):
+        period = 5
+    durations = [abs(num(d)) if num(d) != float('inf') else 1 for d in spec['durations']]
+    durations = (durations * 3)[:rng.randint(3, 9)]
+    maker = usim.interval if spec['how'] == 'interval' else usim.delay
+    nested = rng.random() < 0.4
+    cuts = sorted({rng.randint(1, len(durations) - 1) for _ in range(2)})
+    pieces = [durations[a:b] for a, b in zip([0] + cuts, cuts + [len(durations)])]
+    gaps = [rng.choice([0, 0, period * 0.5, period, period + 1, 'reset']) for _ in pieces]
+    offsets = [rng.choice([0, 0, 0.375, 1]) for _ in pieces]
+    box, log, marks, end = [], [], [], [None]
+    violations = []
+
+    async def piece(number):
+        if offsets[number]:
+            await (time + offsets[number])
+        if not box:
+            box.append(maker(period).__aiter__())
+        marks.append(time.now)
+        if end[0] is not None:
+            return
+        try:
+            for duration in pieces[number]:
+                now = await box[0].__anext__()
+                log.append((time.now, now))
+                if duration:
+                    await (time + duration)
+        except IntervalExceeded:
+            end[0] = ('IntervalExceeded', time.now)
+        marks.append(time.now)
+
+    def named(coro, name):
+        coro.__name__ = coro.__qualname__ = name
+        return coro
+
+    # the clock of every piece, from the model
+    start = case['start'] if not isinstance(case['start'], int) else 0
+    ticks, terminal = [], 'done'
+    clock, last = start, None
+    starts = []
+    for number, durations_here in enumerate(pieces):
+        if number:
+            if nested and number == 1:
+                piece_start = 1000 + start        # the nested simulation has a clock of its own
+            elif nested and number == 2:
+                piece_start = None                # back in the enclosing simulation
+            elif gaps[number] == 'reset':
+                piece_start = start
+            else:
+                piece_start = clock + gaps[number]
+        else:
+            piece_start = start
+        starts.append(piece_start)
+        if nested and number == 1:
+            outer_clock = clock
+        if piece_start is not None:
+            clock = piece_start
+        else:
+            clock = outer_clock
+        clock = clock + offsets[number]
+        if terminal != 'done':
+            continue
+        for duration in durations_here:
+            if last is None:
+                last = clock
+            if spec['how'] == 'interval':
+                # (the span left until the next grid point is what is waited for: with inexact
+                # periods `clock + (due - clock)` may differ from `due` in the last digit)
+                remaining = last + period - clock
+                if remaining < 0:
+                    terminal = 'IntervalExceeded'
+                    break
+                clock = last = clock + remaining
+            else:
+                clock = clock + period
+            ticks.append(clock)
+            clock = clock + duration
+    try:
+        if nested:
+            async def outer():
+                await piece(0)
+                if len(pieces) > 1:
+                    usim.run(named(piece(1), 'nested-piece'), start=starts[1])
+                if len(pieces) > 2:
+                    await piece(2)
+            sessions = [Session()]
+            outcomes = [sessions[0].run(named(outer(), 'pieces'), start=start)]
+        else:
+            sessions, outcomes = [], []
+            for number in range(len(pieces)):
+                sessions.append(Session())
+                outcomes.append(sessions[-1].run(named(piece(number), 'piece%d' % number),
+                                                 start=starts[number]))
+    finally:
+        box.clear()
+    for sess, outcome in zip(sessions, outcomes):
+        violations += [dict(v) for v in sess.violations if v['mechanism'].startswith('kernel-')]
+        if outcome[0] != 'ok':
+            violations.append({'mechanism': 'c14:run-failed',
+                               'msg': 'run() ended with %r' % (outcome[1],)})
+    what = '%s(%r) iterated in %d pieces (%s; body durations %s, clocks %s, offsets %s)' % (
+        spec['how'], period, len(pieces), 'the second by a nested simulation' if nested
+        else 'by simulations run one after the other', pieces, starts, offsets)
+    for position, (when, value) in enumerate(log):
+        if value != when:
+            violations.append({'mechanism': 'c14:yielded-value',
+                               'msg': '%s: yielded %r at time %r' % (what, value, when)})
+        if position < len(ticks) and when != ticks[position]:
+            violations.append({'mechanism': 'c14:wrong-tick-time',
+                               'msg': '%s: tick %d at %r, expected %r' % (
+                                   what, position, when, ticks[position])})
+            break
+    if len(log) != len(ticks) and not violations:
+        violations.append({'mechanism': 'c14:missing-tick' if len(log) < len(ticks)
+                           else 'c14:extra-tick',
+                           'msg': '%s: %d ticks, model expects %d (%s)' % (
+                               what, len(log), len(ticks), terminal)})
+    got_end = end[0][0] if end[0] else 'done'
+    if got_end != terminal and not violations:
+        violations.append({'mechanism': 'c14:wrong-termination',
+                           'msg': '%s: ended with %s, model expects %s' % (what, got_end, terminal)})
+    for vio in violations:
+        vio['case'] = dict(case)
+    stats = {'ticks_checked': len(log), 'exceeded_checked': int(terminal != 'done'),
+             'zero_period_ticks': len(log) if period == 0 else 0, 'iterated_in_pieces': 1,
+             'activations': sum(sess.n for sess in sessions)}
+    return {'evals': 1, 'sigs': [sessions[0].signature()] if len(log) >= 2 else [],
+            'stats': stats, 'violations': violations, 'sample': None}
+
+
 def run_case(case):
+    if case['index'] % 12 == 5:
+        return run_segments(case)
     sess = Session()
     log = {spec['name']: [] for spec in case['tickers']}
     ends = {spec['name']: None for spec in case['tickers']}
